@@ -8,13 +8,19 @@ import (
 
 func init() {
 	verifHarnesses["VerifC14Symbolic"] = VerifC14Symbolic
+	verifHarnesses["VerifC14SymbolicCells"] = VerifC14SymbolicCells
 	verifHarnesses["VerifC14BuiltIns"] = VerifC14BuiltIns
 }
 
 // O-1/O-2: a tile matrix set of n <= 4 matrices whose numeric fields are all symbolic and whose discrete fields
 // (id string, corner of origin, variable widths, key gaps) are nondeterministic at one position and well-formed
 // elsewhere: acceptance implies every quadtree condition, and validation never panics.
-func VerifC14Symbolic() {
+func VerifC14Symbolic() { verifC14Body(false) }
+
+// the same with fully symbolic float64 cell sizes (IEEE division in the solver: slow, thorough tier only)
+func VerifC14SymbolicCells() { verifC14Body(true) }
+
+func verifC14Body(symbolicCells bool) {
 	n := verifConcretizeInt(int(verifNondetInt("n", 1, 4)))
 	free := verifConcretizeInt(int(verifNondetInt("free", 0, int64(n-1)))) // position with free discrete fields
 	origin0 := tms20.TwoDPoint{verifNondetFloat64("ox0"), verifNondetFloat64("oy0")}
@@ -35,7 +41,7 @@ func VerifC14Symbolic() {
 		keys[i] = key
 		tm := tms20.TileMatrix{
 			ID:             verifItoa(key),
-			CellSize:       verifNondetFloat64("cell" + sfx),
+			CellSize:       verifC14Cell(i, i == free || i == free+1, symbolicCells, mats),
 			CornerOfOrigin: tms20.TopLeft,
 			PointOfOrigin:  &origin0,
 			TileWidth:      uint(verifNondetUint("tw"+sfx, 0, math.MaxUint64)),
@@ -97,6 +103,23 @@ func VerifC14Symbolic() {
 			verifAssert(r >= 1.99 && r <= 2.01, "C14.O1.cell-size-halves-within-tolerance")
 		}
 	}
+}
+
+// verifC14Cell: cell size of matrix i. Either fully symbolic, or the previous cell size divided by a ratio picked from
+// values at, inside and outside the tolerance the validation accepts (1.99 .. 2.01).
+func verifC14Cell(i int, free, symbolic bool, mats []tms20.TileMatrix) float64 {
+	if symbolic {
+		return verifNondetFloat64("cell" + verifItoa(i))
+	}
+	if i == 0 {
+		return 1024
+	}
+	if !free {
+		return mats[i-1].CellSize / 2
+	}
+	ratios := []float64{2, 1.99, 2.01, 1.9899999, 2.0100001, 1, 4, 0.5, math.Inf(1), math.NaN()}
+	r := ratios[verifConcretizeInt(int(verifNondetInt("ratio"+verifItoa(i), 0, int64(len(ratios)-1))))]
+	return mats[i-1].CellSize / r
 }
 
 // O-3: every built-in set is rejected with an error, or is accepted and at every id the pixel size the index uses
